@@ -29,5 +29,318 @@ theorem beNat_beBytes (k n : Nat) : beNat (beBytes k n) = n % 256 ^ k := by
 theorem beNat_beBytes_lt {k n : Nat} (h : n < 256 ^ k) : beNat (beBytes k n) = n := by
   rw [beNat_beBytes, Nat.mod_eq_of_lt h]
 
+theorem initByte {major c : Nat} (hm : major < 8) (hc : c < 32) :
+    (UInt8.ofNat (major * 32 + c)).toNat = major * 32 + c := by
+  rw [UInt8.toNat_ofNat']; exact Nat.mod_eq_of_lt (by omega)
+
+theorem decHead_wide {major ai k n : Nat} (rest : Bytes) (hm : major < 8) (hlo : 24 ≤ ai) (hhi : ai < 32)
+    (hk : argLen ai = some k) (hn : n < 256 ^ k) :
+    decHead (UInt8.ofNat (major * 32 + ai) :: (beBytes k n ++ rest)) = some (major, n, rest) := by
+  have h1 : (major * 32 + ai) % 32 = ai := by omega
+  have h2 : (major * 32 + ai) / 32 = major := by omega
+  have h3 : ¬ ai < 24 := by omega
+  simp only [decHead, initByte hm hhi, h1, h2, h3, if_false, hk]
+  have hl : ¬ (beBytes k n ++ rest).length < k := by simp [length_beBytes]
+  simp only [hl, if_false, List.take_left' (length_beBytes k n), List.drop_left' (length_beBytes k n), beNat_beBytes_lt hn]
+
+theorem decHead_head {major n : Nat} (rest : Bytes) (hm : major < 8) (hn : n < 2 ^ 64) :
+    decHead (head major n ++ rest) = some (major, n, rest) := by
+  unfold head
+  split
+  · next h =>
+    have h1 : (major * 32 + n) % 32 = n := by omega
+    have h2 : (major * 32 + n) / 32 = major := by omega
+    simp only [List.cons_append, List.nil_append, decHead, initByte hm (by omega : n < 32), h1, h2, h, if_true]
+  · split
+    · next h => exact decHead_wide rest hm (by omega) (by omega) (by simp [argLen]) (by omega)
+    · split
+      · next h => exact decHead_wide rest hm (by omega) (by omega) (by simp [argLen]) (by omega)
+      · split
+        · next h => exact decHead_wide rest hm (by omega) (by omega) (by simp [argLen]) (by omega)
+        · exact decHead_wide rest hm (by omega) (by omega) (by simp [argLen]) (by omega)
+
+theorem decPayload_append (b rest : Bytes) : decPayload b.length (b ++ rest) = some (b, rest) := by
+  simp [decPayload]
+
+theorem decKey_enc (k rest : Bytes) (hk : k.length < 2 ^ 64) :
+    decKey (head 3 k.length ++ k ++ rest) = some (k, rest) := by
+  simp only [decKey, List.append_assoc, decHead_head _ (by omega : 3 < 8) hk, decPayload_append, if_true]
+
+theorem decVal_enc (v : Val) (rest : Bytes) (hv : v.Fits) : decVal (encodeVal v ++ rest) = some (v, rest) := by
+  cases v with
+  | bytes b =>
+    simp only [Val.Fits] at hv
+    simp [decVal, encodeVal, List.append_assoc, decHead_head _ (by omega : 2 < 8) hv, decPayload_append]
+  | text t =>
+    simp only [Val.Fits] at hv
+    simp [decVal, encodeVal, List.append_assoc, decHead_head _ (by omega : 3 < 8) hv, decPayload_append]
+
+theorem decPairs_encodePairs (m : Map) (rest : Bytes) (h : ∀ e ∈ m, e.1.length < 2 ^ 64 ∧ e.2.Fits) :
+    decPairs m.length (encodePairs m ++ rest) = some (m, rest) := by
+  induction m with
+  | nil => simp [decPairs, encodePairs]
+  | cons e m ih =>
+    obtain ⟨k, v⟩ := e
+    have he := h (k, v) (by simp)
+    have ih' := ih (fun e he => h e (by simp [he]))
+    simp only [encodePairs, List.length_cons, decPairs, List.append_assoc]
+    rw [← List.append_assoc (head 3 k.length) k, decKey_enc k _ he.1]
+    simp only [decVal_enc v _ he.2, ih']
+
+theorem decodeMap_encodeMap (m : Map) (rest : Bytes) (h : Fits m) :
+    decodeMap (encodeMap m ++ rest) = some (m, rest) := by
+  simp only [decodeMap, encodeMap, List.append_assoc, decHead_head _ (by omega : 5 < 8) h.1, if_true,
+    decPairs_encodePairs m rest h.2]
+
+theorem decode_encodeMap (m : Map) (h : Fits m) : decode (encodeMap m) = some m := by
+  have := decodeMap_encodeMap m [] h
+  simp only [List.append_nil] at this
+  simp [decode, this]
+
+/-! the decoder never reads past the end: what it returns as the rest is a strict suffix in length -/
+
+theorem decHead_lt {b : Bytes} {major n : Nat} {rest : Bytes} (h : decHead b = some (major, n, rest)) :
+    rest.length < b.length := by
+  cases b with
+  | nil => simp [decHead] at h
+  | cons x xs =>
+    simp only [decHead] at h
+    split at h
+    · cases h; simp
+    · split at h
+      · cases h
+      · split at h
+        · cases h
+        · cases h; simp [List.length_drop]; omega
+
+theorem decPayload_le {n : Nat} {b p rest : Bytes} (h : decPayload n b = some (p, rest)) : rest.length ≤ b.length := by
+  simp only [decPayload] at h
+  split at h
+  · cases h
+  · cases h; simp [List.length_drop]
+
+theorem decKey_lt {b k rest : Bytes} (h : decKey b = some (k, rest)) : rest.length < b.length := by
+  simp only [decKey] at h
+  split at h
+  · next major n r hh =>
+    split at h
+    · have := decHead_lt hh; have := decPayload_le h; omega
+    · cases h
+  · cases h
+
+theorem decVal_lt {b : Bytes} {v : Val} {rest : Bytes} (h : decVal b = some (v, rest)) : rest.length < b.length := by
+  simp only [decVal] at h
+  split at h
+  · next major n r hh =>
+    have hl := decHead_lt hh
+    split at h
+    · cases hp : decPayload n r with
+      | none => simp [hp] at h
+      | some p => simp [hp] at h; have := decPayload_le hp; obtain ⟨_, rfl⟩ := h; omega
+    · split at h
+      · cases hp : decPayload n r with
+        | none => simp [hp] at h
+        | some p => simp [hp] at h; have := decPayload_le hp; obtain ⟨_, rfl⟩ := h; omega
+      · cases h
+  · cases h
+
+theorem decPairs_le {n : Nat} {b : Bytes} {m : Map} {rest : Bytes} (h : decPairs n b = some (m, rest)) :
+    rest.length ≤ b.length := by
+  induction n generalizing b m with
+  | zero => simp [decPairs] at h; obtain ⟨_, rfl⟩ := h; exact Nat.le_refl _
+  | succ n ih =>
+    simp only [decPairs] at h
+    split at h
+    · cases h
+    · next k r1 hk =>
+      split at h
+      · cases h
+      · next v r2 hv =>
+        split at h
+        · cases h
+        · next m' r3 hm =>
+          cases h
+          have := decKey_lt hk; have := decVal_lt hv; have := ih hm; omega
+
+theorem decodeMap_total {b : Bytes} {m : Map} {rest : Bytes} (h : decodeMap b = some (m, rest)) :
+    rest.length < b.length := by
+  simp only [decodeMap] at h
+  split at h
+  · next major n r hh =>
+    split at h
+    · have := decHead_lt hh; have := decPairs_le h; omega
+    · cases h
+  · cases h
+
 end Cbor
+/-! ### Storage scheme -/
+
+section Scheme
+variable {P : Prims}
+
+theorem searchableNonce_length (hP : P.Lawful) (hk m : Bytes) : (searchableNonce P hk m).length = nonceLen := by
+  simp [searchableNonce, hP.hmac_len, nonceLen]
+
+theorem decryptField_nonce_enc (hP : P.Lawful) (ek n m : Bytes) (hn : n.length = nonceLen) :
+    decryptField P ek (n ++ P.enc ek n m) = some m := by
+  unfold decryptField
+  have hl : ¬ (n ++ P.enc ek n m).length < nonceLen + tagLen := by
+    simp only [List.length_append, hP.enc_len, hn]; omega
+  simp only [hl, if_false]
+  rw [List.take_left' hn, List.drop_left' hn, hP.dec_enc]
+
+theorem searchable_roundtrip (hP : P.Lawful) (ek hk m : Bytes) :
+    decryptField P ek (encryptSearchable P ek hk m) = some m :=
+  decryptField_nonce_enc hP ek _ m (searchableNonce_length hP hk m)
+
+theorem searchable_injective (hP : P.Lawful) (ek hk m₁ m₂ : Bytes)
+    (h : encryptSearchable P ek hk m₁ = encryptSearchable P ek hk m₂) : m₁ = m₂ := by
+  have h1 := searchable_roundtrip hP ek hk m₁
+  rw [h, searchable_roundtrip hP] at h1
+  exact (Option.some.inj h1).symm
+
+theorem searchable_layout (hP : P.Lawful) (ek hk m : Bytes) :
+    (encryptSearchable P ek hk m).take nonceLen = (P.hmac hk m).take nonceLen ∧
+    (encryptSearchable P ek hk m).length = nonceLen + m.length + tagLen := by
+  constructor
+  · exact List.take_left' (searchableNonce_length hP hk m)
+  · simp only [encryptSearchable, List.length_append, searchableNonce_length hP, hP.enc_len]; omega
+
+theorem value_roundtrip (hP : P.Lawful) (ihk c n nonce v : Bytes) (hn : nonce.length = nonceLen) :
+    decryptValue P ihk c n (encryptValue P ihk c n nonce v) = some v :=
+  decryptField_nonce_enc hP _ nonce v hn
+
+theorem value_layout (hP : P.Lawful) (ihk c n nonce v : Bytes) (hn : nonce.length = nonceLen) :
+    (encryptValue P ihk c n nonce v).take nonceLen = nonce ∧
+    (encryptValue P ihk c n nonce v).length = nonceLen + v.length + tagLen := by
+  constructor
+  · exact List.take_left' hn
+  · simp only [encryptValue, List.length_append, hn, hP.enc_len]; omega
+
+/-! profile key -/
+
+theorem toMap_fits (k : ProfileKey) (h : k.WF) : Cbor.Fits k.toMap := by
+  obtain ⟨h1, h2, h3, h4, h5, h6⟩ := h
+  refine ⟨by simp [ProfileKey.toMap], ?_⟩
+  intro e he
+  simp only [ProfileKey.toMap, List.mem_cons, List.mem_nil_iff, or_false] at he
+  rcases he with rfl | rfl | rfl | rfl | rfl | rfl | rfl <;>
+    simp [Cbor.Val.Fits, ascii, keyLen, *] <;> omega
+
+theorem ofMap_toMap (k : ProfileKey) (h : k.WF) : ProfileKey.ofMap k.toMap = some k := by
+  obtain ⟨h1, h2, h3, h4, h5, h6⟩ := h
+  have e1 : (ascii "ver" == ascii "ick") = false := by decide
+  simp (decide := true) [ProfileKey.ofMap, ProfileKey.toMap, keyField, Cbor.lookup, List.find?, h1, h2, h3, h4, h5, h6]
+
+theorem profileKey_cbor_roundtrip (k : ProfileKey) (h : k.WF) : ProfileKey.ofCbor k.toCbor = some k := by
+  simp only [ProfileKey.ofCbor, ProfileKey.toCbor, Cbor.decode_encodeMap _ (toMap_fits k h), ofMap_toMap k h]
+
+theorem wrap_roundtrip (hP : P.Lawful) (sk : Option Bytes) (nonce : Bytes) (k : ProfileKey)
+    (hn : nonce.length = nonceLen) (hk : k.WF) :
+    unwrapProfileKey P sk (wrapProfileKey P sk nonce k) = some k := by
+  cases sk with
+  | none => simp only [unwrapProfileKey, wrapProfileKey, profileKey_cbor_roundtrip k hk]
+  | some key =>
+    simp only [unwrapProfileKey, wrapProfileKey, decryptField_nonce_enc hP key nonce _ hn, profileKey_cbor_roundtrip k hk]
+
+/-! records -/
+
+theorem tag_roundtrip (hP : P.Lawful) (k : ProfileKey) (id : Int) (t : Tag) :
+    decryptTag P k (encryptTag P k id t) = some t := by
+  obtain ⟨plain, name, value⟩ := t
+  cases plain <;> simp [decryptTag, encryptTag, searchable_roundtrip hP]
+
+theorem tags_roundtrip (hP : P.Lawful) (k : ProfileKey) (id : Int) (ts : List Tag) :
+    (ts.map (encryptTag P k id)).mapM (decryptTag P k) = some ts := by
+  induction ts with
+  | nil => rfl
+  | cons t ts ih => simp [List.mapM_cons, tag_roundtrip hP, ih]
+
+theorem record_roundtrip (hP : P.Lawful) (k : ProfileKey) (id pid : Int) (nonce : Bytes) (r : Rec)
+    (hn : nonce.length = nonceLen) :
+    decryptRec P k (encryptRec P k id pid nonce r).1 (encryptRec P k id pid nonce r).2 = some r := by
+  simp only [decryptRec, encryptRec, searchable_roundtrip hP, value_roundtrip hP _ _ _ _ _ hn, tags_roundtrip hP]
+
+end Scheme
+
+/-! value-key input -/
+
+theorem be32_injective {a b : Nat} (ha : a < 2 ^ 32) (hb : b < 2 ^ 32) (h : Bytes.be32 a = Bytes.be32 b) : a = b := by
+  have := congrArg (fun l => l.map UInt8.toNat) h
+  simp only [Bytes.be32, List.map_cons, List.map_nil, UInt8.toNat_ofNat', List.cons.injEq, and_true] at this
+  omega
+
+theorem length_be32 (n : Nat) : (Bytes.be32 n).length = 4 := rfl
+
+theorem valueKeyInput_injective {c₁ n₁ c₂ n₂ : Bytes} (h1 : c₁.length < 2 ^ 32) (h2 : c₂.length < 2 ^ 32)
+    (h : valueKeyInput c₁ n₁ = valueKeyInput c₂ n₂) : c₁ = c₂ ∧ n₁ = n₂ := by
+  simp only [valueKeyInput, List.append_assoc] at h
+  obtain ⟨hl, hr⟩ := List.append_inj h (by simp [length_be32])
+  have hc := be32_injective h1 h2 hl
+  obtain ⟨hcc, hr2⟩ := List.append_inj hr hc
+  refine ⟨hcc, ?_⟩
+  exact (List.append_inj hr2 (by simp [length_be32])).2
+
+/-- beyond 2³² bytes the length prefix wraps (as the `as u32` cast of the code does): the hypothesis is necessary -/
+theorem valueKeyInput_collision_unbounded :
+    ∃ c₁ n₁ c₂ n₂ : Bytes, (c₁, n₁) ≠ (c₂, n₂) ∧ valueKeyInput c₁ n₁ = valueKeyInput c₂ n₂ := by
+  refine ⟨List.replicate (2 ^ 32) 0, [], [], List.replicate (2 ^ 32) 0, ?_, ?_⟩
+  · intro h
+    have := congrArg (fun p => p.2.length) h
+    simp at this
+  · have e : Bytes.be32 (2 ^ 32) = List.replicate 4 0 := by decide
+    have e0 : Bytes.be32 0 = List.replicate 4 0 := by decide
+    simp only [valueKeyInput, List.length_replicate, List.length_nil, e, e0, List.append_nil, List.nil_append,
+      List.replicate_append_replicate]
+
+/-! key reference -/
+
+theorem hexVal_hexDigit : ∀ n : Fin 16, Bytes.hexVal (Bytes.hexDigit n.val) = some n.val := by decide
+
+theorem ofHexChars_hexChars (b : Bytes) : Bytes.ofHexChars (hexChars b) = some b := by
+  induction b with
+  | nil => rfl
+  | cons x xs ih =>
+    have h1 := hexVal_hexDigit ⟨x.toNat / 16, by have := x.toNat_lt; omega⟩
+    have h2 := hexVal_hexDigit ⟨x.toNat % 16, by omega⟩
+    simp only [] at h1 h2
+    have hx : UInt8.ofNat (x.toNat / 16 * 16 + x.toNat % 16) = x := by
+      have : x.toNat / 16 * 16 + x.toNat % 16 = x.toNat := by omega
+      rw [this, UInt8.ofNat_toNat]
+    simp only [hexChars, List.flatMap_cons, List.cons_append, List.nil_append] at ih ⊢
+    simp only [Bytes.ofHexChars, h1, h2, ih, hx]
+
+theorem length_hexChars (b : Bytes) : (hexChars b).length = 2 * b.length := by
+  induction b with
+  | nil => rfl
+  | cons x xs ih => simp only [hexChars, List.flatMap_cons, List.length_append, List.length_cons, List.length_nil] at ih ⊢; omega
+
+theorem stripPrefix_append (p s : List Char) : stripPrefix p (p ++ s) = some s := by
+  simp [stripPrefix]
+
+theorem parseLevel_str (l : Level) (rest : List Char) : parseLevel (l.str ++ rest) = some (l, rest) := by
+  cases l
+  · simp [parseLevel, stripPrefix_append]
+  · have : stripPrefix Level.interactive.str (Level.moderate.str ++ rest) = none := by
+      simp [stripPrefix, Level.str, List.isPrefixOf]
+    simp [parseLevel, this, stripPrefix_append]
+
+def KeyRefWF : KeyRef → Prop
+  | .argon2i _ salt => salt.length = saltLen
+  | _ => True
+
+theorem keyref_chars_roundtrip (r : KeyRef) (h : KeyRefWF r) : KeyRef.parseChars r.toChars = some r := by
+  cases r with
+  | raw => simp [KeyRef.parseChars, KeyRef.toChars]
+  | unprotected => simp [KeyRef.parseChars, KeyRef.toChars, rawChars, noneChars]
+  | argon2i l salt =>
+    have hr : ¬ (kdfPrefix ++ (l.str ++ (saltPrefix ++ hexChars salt)) = rawChars) := by simp [kdfPrefix, rawChars]
+    have hn : ¬ (kdfPrefix ++ (l.str ++ (saltPrefix ++ hexChars salt)) = noneChars) := by simp [kdfPrefix, noneChars]
+    simp only [KeyRefWF] at h
+    simp only [KeyRef.parseChars, KeyRef.toChars, hr, hn, if_false, stripPrefix_append, parseLevel_str,
+      ofHexChars_hexChars, h, if_true]
+
+theorem keyref_uri_roundtrip (r : KeyRef) (h : KeyRefWF r) : KeyRef.parse r.toUri = some r := by
+  simp only [KeyRef.parse, KeyRef.toUri, String.toList_ofList, keyref_chars_roundtrip r h]
+
 end Askar.Lemmas.StorageScheme
